@@ -388,6 +388,12 @@ def oracle(case, out):
     fin, fout = case.get('fin'), case.get('fout')
     display = hx(out['display'])
     pend = (out.get('pending_seen') or '').encode('latin-1')
+    if case.get('pending') and not case.get('handover'):
+        # what is pending when interact() starts is what the child was told to print before (a timed-out call consumes nothing, whatever the
+        # object went through earlier): judge against that, not against what the object believes is pending
+        told = case['pending'].encode('latin-1')
+        if pend != told:
+            return ('interact/pending-text-wrong', 'the child had written %r before interact() was called; the object held %r as pending text' % (told, pend))
     # output: pending first, then everything the child wrote after that, through the filter, in order
     said = b''
     ended = False
